@@ -139,7 +139,7 @@ def shards(tier):
 
 def run_shard(spec, ctx):
     try:
-        run_given(cases(), body, ctx, ctx.pick(450, 580))
+        run_given(cases(), body, ctx, ctx.pick(450, 1500))
     finally:
         if _DIR[0]:
             shutil.rmtree(_DIR[0], ignore_errors=True)
